@@ -113,14 +113,35 @@ def check_compile_folds(run, f, dirs, rule='R10.fold', only=None):
                     n += 1
                     run.check(order == want, rule, f, st, 'compiled %s is accumulated in place as the %s product of the layer maps, it must be the %s one '
                               '((F1 F2)^-1 = F2^-1 F1^-1): transforming the accumulated map by each layer map appends it' % (which, order, want))
+    # accumulators: self.<which> itself, or a local that is stored into self.<which> (possibly by a tuple assignment)
+    def _pairs(st):
+        if not isinstance(st, ast.Assign) or len(st.targets) != 1:
+            return []
+        t, v = st.targets[0], st.value
+        if isinstance(t, ast.Tuple) and isinstance(v, ast.Tuple) and len(t.elts) == len(v.elts):
+            return list(zip(t.elts, v.elts))
+        return [(t, v)]
+    alias = {}
     for st, ctx in walk(f.node):
-        if not (isinstance(st, ast.Assign) and isinstance(st.targets[0], ast.Attribute)
-                and st.targets[0].attr in ('forward_map', 'backward_map') and norm(st.targets[0].value) == 'self'):
+        for t, v in _pairs(st):
+            if isinstance(t, ast.Attribute) and t.attr in ('forward_map', 'backward_map') and norm(t.value) == 'self' and isinstance(v, ast.Name):
+                alias[v.id] = t.attr
+    seen_fold = set()
+    has_layer_loop = any(isinstance(st, ast.Expr) and isinstance(st.value, ast.Call) and isinstance(st.value.func, ast.Attribute)
+                         and st.value.func.attr == 'compile' and ctx.loops for st, ctx in walk(f.node))
+    for st0, ctx in walk(f.node):
+      for t0, v in _pairs(st0):
+        st = st0
+        if isinstance(t0, ast.Attribute) and t0.attr in ('forward_map', 'backward_map') and norm(t0.value) == 'self':
+            which, acc = t0.attr, 'self.' + t0.attr
+            if isinstance(v, ast.Name) and v.id in alias and not ctx.loops:
+                continue                    # the final store of a local accumulator
+        elif isinstance(t0, ast.Name) and t0.id in alias and ctx.loops:
+            which, acc = alias[t0.id], t0.id
+        else:
             continue
-        which = st.targets[0].attr
         if only is not None and which != only:
             continue
-        v = st.value
         if not ctx.loops:
             if isinstance(v, ast.Call) and isinstance(v.func, ast.Attribute) and v.func.attr == 'inverse':
                 other = 'forward_map' if which == 'backward_map' else 'backward_map'
@@ -130,10 +151,10 @@ def check_compile_folds(run, f, dirs, rule='R10.fold', only=None):
         lp = ctx.loops[-1]
         d = iter_direction(lp.iter, dirs) if isinstance(lp, ast.For) else None
         if not (isinstance(v, ast.Call) and isinstance(v.func, ast.Attribute) and v.func.attr == 'compose' and len(v.args) == 1):
+            seen_fold.add(which)
             run.undecided(rule, f, st, 'fold step is not a compose call')
             continue
         recv, arg = norm(v.func.value), norm(v.args[0])
-        acc = 'self.' + which
         lv = lp.target.id if isinstance(lp.target, ast.Name) else None
         layer_map = '%s.%s' % (lv, which)
         if recv == acc and arg == layer_map:
@@ -142,19 +163,36 @@ def check_compile_folds(run, f, dirs, rule='R10.fold', only=None):
             mode = 'prepend'
         else:
             n += 1
+            seen_fold.add(which)
             run.violation(rule, f, st, 'the fold of %s must compose the accumulated map with the %s of the current layer '
                           '(found %s.compose(%s))' % (which, which, recv, arg))
             continue
         if d is None:
+            seen_fold.add(which)
             run.undecided(rule, f, st, 'direction of the layer loop unknown')
             continue
         # resulting product order
         order = ASC if (d == ASC and mode == 'append') or (d == DESC and mode == 'prepend') else DESC
         want = ASC if which == 'forward_map' else DESC
         n += 1
+        seen_fold.add(which)
         run.check(order == want, rule, f, st,
                   'compiled %s is the %s product of the layer maps, it must be the %s one ((F1 F2)^-1 = F2^-1 F1^-1): '
                   '%s while iterating %s' % (which, order, want, mode, d))
+    # a compile that folds with compose somewhere in a loop must have every stored map read by this rule
+    composes = any(isinstance(c, ast.Call) and isinstance(c.func, ast.Attribute) and c.func.attr == 'compose'
+                   for st, ctx in walk(f.node) if ctx.loops for c in ast.walk(st))
+    if composes:
+        stored, derived = set(), set()
+        for st, ctx in walk(f.node):
+            for t, v in _pairs(st):
+                if isinstance(t, ast.Attribute) and t.attr in ('forward_map', 'backward_map') and norm(t.value) == 'self':
+                    stored.add(t.attr)
+                    if isinstance(v, ast.Call) and isinstance(v.func, ast.Attribute) and v.func.attr == 'inverse':
+                        derived.add(t.attr)
+        for which in sorted(stored - seen_fold - derived):
+            if only is None or which == only:
+                run.undecided(rule, f, f.node, 'self.%s is stored by a compile that folds with compose, but no fold step of it was recognised' % which)
     return n
 
 
@@ -399,15 +437,17 @@ def check_linked_list(run, f, rule='R10.link'):
     if f.name == 'copy' and f.cls is not None:
         # the copy of a circuit: the whole method is executed on a circuit of three layers; the returned circuit must hold the three
         # copies, in order, in both directions
-        it = _LinkInterp(dict(f.cls.methods))
-        it.whole = True
-        me = _Obj('self')
-        it.sources = [it.new('src%d' % k) for k in range(3)]
-        for a, b in zip(it.sources[:-1], it.sources[1:]):
-            a.attrs['next_layer'], b.attrs['prev_layer'] = b, a
-        me.attrs.update(first_layer=it.sources[0], last_layer=it.sources[-1], forward_map=None, backward_map=None, N=3, device='cpu')
-        it.env['self'] = me
         try:
+          cnt = 0
+          for L in (1, 2, 3):        # a one-layer circuit (also the empty circuit) takes the first-iteration branch only
+            it = _LinkInterp(dict(f.cls.methods))
+            it.whole = True
+            me = _Obj('self')
+            it.sources = [it.new('src%d' % k) for k in range(L)]
+            for a, b in zip(it.sources[:-1], it.sources[1:]):
+                a.attrs['next_layer'], b.attrs['prev_layer'] = b, a
+            me.attrs.update(first_layer=it.sources[0], last_layer=it.sources[-1], forward_map=None, backward_map=None, N=3, device='cpu')
+            it.env['self'] = me
             try:
                 it.run(f.node.body)
             except _Done:
@@ -417,10 +457,12 @@ def check_linked_list(run, f, rule='R10.link'):
                 raise Undecidable('no circuit returned')
             want = it.fresh[:]
             ok, fw, bw = _chain_ok(res, want)
-            ok = ok and len(want) == 3 and [o.attrs.get('_copy_of') for o in fw] == [0, 1, 2]
-            run.check(ok, rule, f, 'copy of a three-layer circuit', 'copying three layers: read forward from first_layer the chain of the copy is %s, read backward from '
-                      'last_layer it is %s; both must be the three copied layers in order (next_layer / prev_layer / first_layer / last_layer must all be set)' % (fw, bw))
-            return 1
+            ok = ok and len(want) == L and [o.attrs.get('_copy_of') for o in fw] == list(range(L))
+            run.check(ok, rule, f, 'copy of a %d-layer circuit' % L, 'copying %d layer(s): read forward from first_layer the chain of the copy is %s, read backward from '
+                      'last_layer it is %s; both must be the copied layers in order (next_layer / prev_layer / first_layer / last_layer must all be set; a gate '
+                      'taken by the copy later lands in last_layer)' % (L, fw, bw))
+            cnt += 1
+          return cnt
         except Undecidable:
             pass               # not executable as a whole: the link blocks are judged one by one below
     for st, ctx in walk(f.node):
